@@ -301,6 +301,13 @@ def cases(rng, tier):
     for a, b, kind in division_pairs(rng, 60 if not th else 1500, 12, 64) + division_pairs(rng, 20 if not th else 300, 20, 128) \
             + division_pairs(rng, 60 if not th else 1500, 6, 3):
         z_binary(out, a, b, 'div-' + kind, ops=('pseudo', 'divrem', 'exact'))
+    # ---- coefficients at the machine-word boundaries (+-2^31, 2^32, 2^63, 2^64, 2^127 and neighbours), mixed with small ones
+    edge = [s_ * (2 ** e_ + d_) for e_ in (31, 32, 63, 64, 127) for d_ in (-1, 0, 1) for s_ in (1, -1)]
+    def epoly(d): return [rng.choice(edge) if rng.random() < 0.6 else rng.randrange(-3, 4) for _ in range(d + 1)]
+    for _ in range(40 if not th else 400):
+        a = epoly(rng.randrange(0, 5)); b = epoly(rng.randrange(0, 4))
+        z_binary(out, a, b, 'word-boundary')
+        z_unary(out, a, rng, 'word-boundary')
     # ---- content
     for _ in range(N):
         a = strip(rand_poly(rng, 12, 64)); c = rng.choice([1, -1, 2, -6, 30, rand_coef(rng, 64) or 1])
